@@ -4,6 +4,15 @@ use crate::{same, Out, E};
 use rrtk::*;
 use std::cell::RefCell;
 use std::rc::Rc;
+/// Error injected for code `e`: 0 is the crate's own `Error::FromNone` (what a `NoneToError` upstream
+/// would produce), anything else the user error `Error::Other(e)`.
+pub fn err_code(e: u8) -> Error<E> {
+    if e == 0 {
+        Error::FromNone
+    } else {
+        Error::Other(e)
+    }
+}
 /// One input event of a history.
 #[derive(Clone, Copy, Debug, PartialEq)]
 pub enum Ev<T> {
@@ -16,7 +25,7 @@ impl<T: Clone> Ev<T> {
         match self {
             Ev::Some(t, v) => Ok(Some(Datum::new(Time(*t), v.clone()))),
             Ev::None => Ok(None),
-            Ev::Err(e) => Err(Error::Other(*e)),
+            Ev::Err(e) => Err(err_code(*e)),
         }
     }
     pub fn kind(&self) -> u8 {
@@ -78,7 +87,7 @@ impl<T: Clone + 'static> Src<T> {
         self.set(Ok(None));
     }
     pub fn err(&self, e: u8) {
-        self.set(Err(Error::Other(e)));
+        self.set(Err(err_code(e)));
     }
     /// `Reference<dyn Getter>` by unsizing coercion (never through `to_dyn!`, see DESIGN §0).
     pub fn dynref(&self) -> Reference<dyn Getter<T, E>> {
